@@ -7,7 +7,6 @@
 package c13
 
 import (
-	"context"
 	"database/sql/driver"
 	"encoding/json"
 	"fmt"
@@ -15,6 +14,7 @@ import (
 	"os"
 	"reflect"
 	"strings"
+	"sync/atomic"
 	"testing"
 	"time"
 
@@ -100,6 +100,15 @@ func buildZoo() (*zoo, error) {
 	return z, nil
 }
 
+func (ti *tableInfo) colIndex(name string) int {
+	for k, s := range ti.specs {
+		if s.name == name {
+			return k
+		}
+	}
+	return -1
+}
+
 func (ti *tableInfo) specByName(name string) *colSpec {
 	for _, s := range ti.specs {
 		if s.name == name {
@@ -152,12 +161,13 @@ func eqField(exp, got reflect.Value, trunc bool) bool {
 	return reflect.DeepEqual(exp.Interface(), got.Interface())
 }
 
-// equal compares two structs of the table's type; it returns the name of the
-// first differing column ("" when equal, "<non-column>" for other fields).
-func (ti *tableInfo) equal(exp, got reflect.Value, trunc bool) string {
+// diff compares two structs of the table's type and returns the names of the
+// differing columns ("<non-column>" for other fields); nil when equal.
+func (ti *tableInfo) diff(exp, got reflect.Value, trunc bool) []string {
+	var d []string
 	for _, s := range ti.specs {
 		if !eqField(exp.FieldByIndex(s.fieldIdx), got.FieldByIndex(s.fieldIdx), trunc) {
-			return s.name
+			d = append(d, s.name)
 		}
 	}
 	ce, cg := reflect.New(ti.typ).Elem(), reflect.New(ti.typ).Elem()
@@ -168,7 +178,15 @@ func (ti *tableInfo) equal(exp, got reflect.Value, trunc bool) string {
 		cg.FieldByIndex(s.fieldIdx).Set(reflect.Zero(s.fieldType))
 	}
 	if !reflect.DeepEqual(ce.Interface(), cg.Interface()) {
-		return "<non-column>"
+		d = append(d, "<non-column>")
+	}
+	return d
+}
+
+// equal returns the first differing column, "" when equal.
+func (ti *tableInfo) equal(exp, got reflect.Value, trunc bool) string {
+	if d := ti.diff(exp, got, trunc); len(d) > 0 {
+		return d[0]
 	}
 	return ""
 }
@@ -245,11 +263,13 @@ type caseCtx struct {
 	x     reflect.Value // *T
 	vals  []interface{}
 	names []string
+	nviol int
 }
 
 // violate reports a violation and keeps a histogram of violation kinds in the
 // evidence counters (replay files are only written for the first few).
 func (c *caseCtx) violate(class string, w map[string]interface{}) {
+	c.nviol++
 	key := fmt.Sprint(w["what"])
 	for _, k := range []string{"profile", "column", "stage", "filter_value_kinds"} {
 		if v, ok := w[k]; ok {
@@ -291,7 +311,7 @@ func (c *caseCtx) wit(extra map[string]interface{}) map[string]interface{} {
 func TestCheck(t *testing.T) {
 	run := vlib.Start(t, "C13", "exploration")
 	defer run.Finish()
-	run.Rule("case i: table = zoo[i mod 6] (ints, scalars, tags, marshal, valuers, users: every int/uint width, float32/64, bool, string, named scalars, []byte, time.Time, " +
+	run.Rule("case i: table = zoo[i mod 7] (ints, scalars, tags, marshal, valuers, users, jsonbytes: every int/uint width, float32/64, bool, string, named scalars, []byte, time.Time, " +
 		"pointer and non-pointer, implicitnull/string/binary/json tags, Marshal/BinaryMarshaler/TextMarshaler/json.Marshaler/gogo-proto fields, driver.Valuer+sql.Scanner types); " +
 		"x = seeded random value (boundary ints of every width, uint64 >= 2^63, -0, subnormals, shortest-repr floats, unicode/quote/NUL strings, nil/empty/binary []byte, zero time, " +
 		"times 1000..9999 at microsecond or whole-second precision in UTC or fixed zones, NULL pointers, zero values); per column a MySQL column type able to hold the Go type is drawn " +
@@ -306,18 +326,51 @@ func TestCheck(t *testing.T) {
 		run.Broken(err.Error())
 		return
 	}
-	env, err := newEnv(z)
-	if err != nil {
-		run.Broken(err.Error())
+	// Pin the binlog forms of the model to what the real go-mysql decoder returns.
+	mrows := 40
+	if run.Thorough() {
+		mrows = 400
+	}
+	mchecked, merr := validateBinlogModel(z, run.Seed(), mrows)
+	if merr != nil {
+		run.Broken("the forms model disagrees with the pinned go-mysql decoder: " + merr.Error())
 		return
 	}
-	defer env.close()
+	run.Set("binlog_form_values_validated_against_real_go_mysql_decoder", mchecked)
+
+	// One environment (fake database, LiveDB, Binlog poll loop) per worker: the
+	// binlog path waits for asynchronous invalidations, workers overlap the waits.
+	const par = 8
+	pool := make(chan *env, par)
+	var envs []*env
+	for w := 0; w < par; w++ {
+		e, err := newEnv(z)
+		if err != nil {
+			run.Broken(err.Error())
+			return
+		}
+		envs = append(envs, e)
+		pool <- e
+	}
+	defer func() {
+		for _, e := range envs {
+			e.close()
+		}
+	}()
 
 	n := run.N(20000, 2000000)
-	run.Each(n, 1, func(i int) {
-		checkCase(run, z, env, i)
+	run.Each(n, par, func(i int) {
+		e := <-pool
+		defer func() { pool <- e }()
+		checkCase(run, z, e, i)
 	})
-	env.report(run)
+	var q, le int64
+	for _, e := range envs {
+		q += atomic.LoadInt64(&e.st.queries)
+		le += atomic.LoadInt64(&e.log.n)
+	}
+	run.Set("fake_driver_queries", q)
+	run.Set("binlog_logged_errors", le)
 }
 
 func checkCase(run *vlib.Run, z *zoo, env *env, i int) {
@@ -396,11 +449,24 @@ func checkCase(run *vlib.Run, z *zoo, env *env, i int) {
 		for k := range vals {
 			row[k] = encode(vals[k], choices[k], p)
 		}
-		c.decodeAndCompare(p, "BuildStruct", row, choices, func() (interface{}, error) {
+		y, clean := c.decodeAndCompare(p, "BuildStruct", row, choices, func() (interface{}, error) {
 			return z.schema.BuildStruct(ti.name, row)
 		}, func(alt []driver.Value) (interface{}, error) {
 			return z.schema.BuildStruct(ti.name, alt)
 		})
+		if p == pQueryBinary && clean {
+			// Decoded rows are independent of each other: the row decoded for the
+			// previous case of this table must still equal its original now.
+			if last := env.lastDecoded[ti.name]; last != nil {
+				if cols := ti.diff(last.c.x.Elem(), last.y.Elem(), false); len(cols) > 0 {
+					c.violate("", last.c.wit(map[string]interface{}{"what": "a previously decoded struct changed when a later row of the same table was decoded",
+						"column": strings.Join(cols, ","), "got_now": showStruct(last.y.Interface())}))
+				} else {
+					run.Count("earlier_decoded_row_still_intact", 1)
+				}
+			}
+			env.lastDecoded[ti.name] = &lastDec{c: c, y: y}
+		}
 	}
 
 	// (3) database/sql path, (4) binlog path
@@ -420,13 +486,13 @@ func checkCase(run *vlib.Run, z *zoo, env *env, i int) {
 }
 
 // decodeAndCompare runs one decoder over one source row and compares with x.
-func (c *caseCtx) decodeAndCompare(p profile, via string, row []driver.Value, choices []colChoice, dec func() (interface{}, error), dec2 func([]driver.Value) (interface{}, error)) {
+func (c *caseCtx) decodeAndCompare(p profile, via string, row []driver.Value, choices []colChoice, dec func() (interface{}, error), dec2 func([]driver.Value) (interface{}, error)) (decoded reflect.Value, clean bool) {
 	c.run.Count("decode:"+via+":"+p.String(), 1)
 	var y interface{}
 	var err error
 	if pn := safely(func() { y, err = dec() }); pn != nil {
 		c.violate("", c.wit(map[string]interface{}{"what": via + " panicked", "profile": p.String(), "source_row": showRow(c.names, row), "panic": fmt.Sprint(pn)}))
-		return
+		return reflect.Value{}, false
 	}
 	if err != nil {
 		class := ""
@@ -444,17 +510,53 @@ func (c *caseCtx) decodeAndCompare(p profile, via string, row []driver.Value, ch
 		}
 		c.violate(class, c.wit(map[string]interface{}{"what": via + " failed to decode a form the source produces", "profile": p.String(),
 			"source_row": showRow(c.names, row), "choices": fmt.Sprint(choices), "err": err.Error()}))
-		return
+		return reflect.Value{}, false
 	}
 	yv := reflect.ValueOf(y)
 	if yv.Kind() != reflect.Ptr || yv.IsNil() || yv.Elem().Type() != c.ti.typ {
 		c.violate("", c.wit(map[string]interface{}{"what": via + " returned an unexpected type", "profile": p.String(), "got": fmt.Sprintf("%T", y)}))
-		return
+		return reflect.Value{}, false
 	}
-	if col := c.ti.equal(c.x.Elem(), yv.Elem(), p == pBinlog); col != "" {
-		c.violate("", c.wit(map[string]interface{}{"what": via + ": decoded struct differs from the original", "profile": p.String(), "column": col,
+	if cols := c.ti.diff(c.x.Elem(), yv.Elem(), p == pBinlog); len(cols) > 0 {
+		c.violate(c.classifyDecodeDiff(cols, row, yv.Elem()), c.wit(map[string]interface{}{"what": via + ": decoded struct differs from the original", "profile": p.String(), "column": strings.Join(cols, ","),
 			"source_row": showRow(c.names, row), "choices": fmt.Sprint(choices), "got": showStruct(y)}))
+		return yv, false
 	}
+	return yv, true
+}
+
+// classifyDecodeDiff recognises the defect "[]byte with the json tag: the
+// Valuer JSON-encodes the bytes, the Scanner stores the JSON text undecoded":
+// every differing column is a json-tagged plain []byte whose decoded content
+// is exactly the source text.
+func (c *caseCtx) classifyDecodeDiff(cols []string, row []driver.Value, got reflect.Value) string {
+	for _, name := range cols {
+		s := c.ti.specByName(name)
+		if s == nil || !s.jsonTag || s.base != bytesType {
+			return ""
+		}
+		k := c.ti.colIndex(name)
+		g := got.FieldByIndex(s.fieldIdx)
+		if s.ptr {
+			if g.IsNil() {
+				return ""
+			}
+			g = g.Elem()
+		}
+		var src []byte
+		switch v := row[k].(type) {
+		case []byte:
+			src = v
+		case string:
+			src = []byte(v)
+		default:
+			return ""
+		}
+		if string(g.Bytes()) != string(src) {
+			return ""
+		}
+	}
+	return "bytes-json-tag-not-decoded"
 }
 
 // altBinaryRow replaces Go strings in `binary`-tagged columns by []byte.
@@ -513,5 +615,3 @@ func (c *caseCtx) checkTester() {
 		}
 	}
 }
-
-var _ = context.Background
